@@ -120,6 +120,9 @@ def run_case(case):
                     err = e
             step_ctx = dict(ctx, step=si, append_rows=len(dfk), existing_rows=sum(len(b) for b in batches))
             if err is not None:
+                # what the refusal may hinge on: data files present before the append; rows of the batch that carry every partition key
+                step_ctx["existing_data_files"] = sum(1 for rel in before if not fsmon.is_meta(rel))
+                step_ctx["batch_rows_with_all_keys"] = int(len(dfk[pcols].dropna())) if pcols else len(dfk)
                 res["failures"].append({"kind": "append_raised", **step_ctx, **C.exc_shape(err)})
                 break
             batches.append(dfk)
